@@ -104,6 +104,7 @@ type Violation struct {
 	ReplayPath string
 	Known   string
 	Dirty   bool // the failing condition reads uninitialised allocator memory
+	HashDep bool // the path depends on values of the uninterpreted hash function
 }
 
 type DrawVal struct {
@@ -664,6 +665,7 @@ func (ex *Exec) report(st *State, kind, msg string) {
 	}
 	v := &Violation{Kind: kind, Site: site, Msg: msg, Harness: ex.harness, Stack: ex.stack(st)}
 	v.Dirty = ex.lastBad != nil && ex.dependsOnDirty(ex.lastBad, map[uint32]bool{})
+	v.HashDep = len(st.hashes) > 1
 	v.Draws = ex.modelDraws(st)
 	if ex.lastBad != nil && kind == "assert" {
 		// prefer a model whose input bytes are non-zero: fresh native memory is usually zero, so a
